@@ -32,7 +32,7 @@ RULE = ("case = static call structure (absdelta?, resnorm?, miniter None/int, ma
 ASSUMPTIONS = [
     "float64 (jax_enable_x64); CPU backend; systems of size <= 8 with kappa <= 1e3 (alphabet values, mixing selected by VERIF_SEED)",
     "compiled solver exercised through jax.jit with matrix, rhs and all numeric stopping parameters traced (the jittability use case of the test-suite)",
-    "criterion accepted within 1e3*eps*kappa*scale of the threshold; runs whose criterion value is within 1e-6 relative of a threshold are not used for the agreement clause",
+    "criterion accepted within 1e3*eps*(|j|+|A||x|) of the threshold; solutions compared at max(1e-10, 1e4*eps*kappa) relative; runs whose criterion value is within 1e-6 relative of a threshold are not used for the agreement clause",
     "previous iterate (needed for the energy-decrease criterion) obtained by re-running the eager solver with maxiter = nit-1; its energy is evaluated densely",
     "norm_ord left at its default; time_threshold and name (printing) not exercised",
 ]
@@ -330,7 +330,7 @@ def run_hpd(c):
                         else:
                             V("hpd|disagree|verdict", "%s: eager info=%d nit=%d, static info=%d nit=%d" % (where, e["info"], e["nit"], s["info"], s["nit"]))
                     d = np.linalg.norm(e["x"] - s["x"])
-                    if d > 1e-10 * max(1., np.linalg.norm(e["x"])):
+                    if d > max(1e-10, 1e4 * R.EPS * kappa) * max(1., np.linalg.norm(e["x"])):
                         V("hpd|disagree|solution", "%s: |x_eager - x_static| = %.3e (nit %d / %d, info %d / %d)"
                           % (where, d, e["nit"], s["nit"], e["info"], s["info"]))
     event = {"none": st["conv_by_criterion"], "at": st["conv_exactly_at_maxiter"], "before": st["stopped_by_maxiter"]}[c["maxmode"]]
